@@ -627,6 +627,22 @@ class ECFG:
             facts = set(facts) | set(atom_facts(n["a"][0], True))
         if n.get("k") == "MCall" and (n.get("obj") is None or strip(n["obj"]).get("k") == "This") and WORLD[0] is not None:
             facts = set(facts) | WORLD[0].summary(n, self.fn)
+        if n.get("k") == "MCall" and n.get("callee") == "FEAT::Xml::MarkupParser::close":
+            # the close() callback of the parser on top of a stack member: remembered until the stack itself changes
+            o = n.get("obj")
+            top = None
+            srcs = [o]
+            r_ = root_var(o)
+            if r_ is not None and not is_this_field_root(o, r_):
+                li = local_init(self.fn, r_)        # `auto top = stack.back().parser(); top->close(..)`
+                if li is not None:
+                    srcs.append(li)
+            for src in srcs:
+                for x in walk(src):
+                    if x.get("k") == "MCall" and x.get("n") == "back" and is_this_field(x.get("obj")):
+                        top = strip(x["obj"])["n"]
+            if top is not None:
+                facts = set(facts) | {("b", "closed(%s.back())" % top, None, True, frozenset(["@" + top]), frozenset(["@" + top]))}
         if n.get("k") == "MCall" and n.get("n") == "resize" and (n.get("ccls") or "").startswith("std::") and n.get("a"):
             o = strip(n.get("obj"))
             if o is not None and (o.get("k") == "Ref" or is_this_field(o)):
@@ -812,7 +828,7 @@ def undecided(ck, rule, key, why):
 MODELLED_CALLEES = re.compile(r"^(std::|FEAT::String::|FEAT::assertion$|FEAT::stringify|FEAT::Xml::\w+Error::|FEAT::Math::)")
 
 
-def suspects(W, e, upto, names, anywhere=False):
+def suspects(W, e, upto, names, anywhere=False, ignore=None):
     """calls executed before `upto` on some path (all calls of the function if anywhere) through which a check the rule
     misses could be performed in a way it does not model: member functions of the own class without analysed body, any
     non-library callee that receives `this` or one of the variables `names`, invocations of local lambdas.  Own member
@@ -848,7 +864,7 @@ def suspects(W, e, upto, names, anywhere=False):
             if k not in ("Call", "MCall"):
                 continue
             cal = n.get("callee") or ""
-            if MODELLED_CALLEES.match(cal) or (n.get("ccls") or "").startswith("std::"):
+            if MODELLED_CALLEES.match(cal) or (n.get("ccls") or "").startswith("std::") or (ignore is not None and re.search(ignore, cal)):
                 continue
             args = list(n.get("a", []))
             mentions = any((vars_of(a) & names) for a in args) or any(strip(a) is not None and strip(a).get("k") == "This" for a in args)
@@ -1021,6 +1037,10 @@ def declare_rules(ck):
             "every back()/pop_back() on the scanner's markup stack is dominated by a non-empty check, in the function itself or "
             "(if the function does not shrink the stack before) at every call site inside the class (input class: surplus "
             "terminators, content after the root terminator)", 11)
+    ck.rule("E7.scanner-close-pairing",
+            "every pop of the scanner's parser stack is reached only on paths that called the popped parser's close() callback after "
+            "the last change of the stack (create/close pairing; input class: a self-closed markup `<Patch rank=\"0\" size=\"2\" />` "
+            "whose declared count is never checked)", 2)
     ck.rule("E7.scanner-line-count",
             "every std::getline of the scanner is followed on all paths by an increment of the line counter (input class: files with "
             "empty lines: the documented exception must carry the right line)", 1)
@@ -1055,6 +1075,11 @@ def declare_rules(ck):
             "representable, reader inside buffer/containers, every size observer (e.g. get_num_nodes_domain) equal for original and "
             "rebuilt object; the states cover every empty/non-empty combination of the payload sections, so the conditions guarding a section "
             "on both sides must agree (input class: any graph; the default-constructed graph; a graph with nodes but no adjacencies)", 13)
+    ck.rule("E7.ini-state-update",
+            "in PropertyMap::read every non-throwing path through a branch of the line-classification chain assigns the local state "
+            "variable (kind of the last line; identified as the enum-valued local assigned in several branches and tested in conditions) "
+            "before the next line is read or the function returns (input class: `[A]` / `key =` / `{` - an entry with empty value "
+            "between a section marker and its brace)", 4)
     ck.rule("E12.ini-delimiters",
             "every line form PropertyMap::write emits (key = value, [section], {, } # comment) is, after read()'s own comment "
             "stripping and trimming, classified by a distinct non-rejecting branch of read()'s if-chain (predicates and the comment "
@@ -2283,6 +2308,31 @@ def rule_scanner(ck, W, sfacts):
                     if fs is not None and not find_fact(fs, "<", A="0", B="%s.size()" % stack, truth=True):
                         probs.append("%s() calls %s() at line %s where the stack may be empty" % (g.name, f.name, c.get("l")))
                 ck.ob("E7.scanner-stack", key, not probs, "; ".join(probs) or "non-empty at all %d call site(s) of %s()" % (len(sites), f.name), f.file, n.get("l"))
+
+    # create/close pairing: a parser is only popped from the stack after its close() callback ran
+    for f in fns:
+        e = None
+        for n in f.nodes():
+            if n.get("k") == "MCall" and n.get("n") == "pop_back" and is_this_field(n.get("obj")) \
+               and (n.get("ccls") or "").startswith("std::vector<FEAT::Xml::Scanner::MarkupInfo"):
+                e = e or W.ecfg(f)
+                stack = strip(n["obj"])["n"]
+                pops = [x for x in f.nodes() if x.get("k") == "MCall" and x.get("n") == "pop_back" and is_this_field(x.get("obj")) and strip(x["obj"])["n"] == stack]
+                key = "Scanner::%s/%s.pop_back#%d" % (f.name, stack, 1 + [id(x) for x in pops].index(id(n)))
+                fs = e.facts_at(n)
+                if fs is None:
+                    continue
+                if find_fact(fs, "b", A="closed(%s.back())" % stack, truth=True):
+                    ck.ob("E7.scanner-close-pairing", key, True, "every path to the pop passes close() of the top parser", f.file, n.get("l"))
+                    continue
+                # the other callbacks of the MarkupParser interface (attribs/create/markup/content) are not close()
+                sus = suspects(W, e, n, {"@" + stack}, ignore=r"^FEAT::Xml::MarkupParser::")
+                if sus:
+                    undecided(ck, "E7.scanner-close-pairing", key, "no close() of the top parser seen before the pop, but %s may call it" % sus)
+                else:
+                    ck.ob("E7.scanner-close-pairing", key, False,
+                          "`%s` is reachable on a path on which the top parser's close() callback was not called: the element's completeness checks "
+                          "(declared counts, mandatory children) are skipped, e.g. for a self-closed markup `<X ... />`" % render(n)[:40], f.file, n.get("l"))
 
     # line counter: every getline on the stream is followed by an increment of the line counter field
     for f in fns:
@@ -4142,6 +4192,7 @@ def rule_ini(ck, W, pfacts):
         return
     cch = sorted(comment)[0]
     preds = []
+    chain_nodes = []
     n = chain
     e = W.ecfg(rd)
     while n is not None and n.get("k") == "If":
@@ -4151,7 +4202,9 @@ def rule_ini(ck, W, pfacts):
             return
         acts = sorted({z.get("n") for z in walk(n.get("then")) if z.get("k") == "MCall" and z.get("n") in ("add_section", "add_entry", "push", "pop")})
         preds.append((p, acts))
+        chain_nodes.append((n, p))
         n = n.get("else")
+    rule_ini_state(ck, W, rd, chain_nodes)
 
     def classify(text):
         i = text.find(cch)
@@ -4767,3 +4820,97 @@ def angle_cos_sin(sp, e):
         cc, ss = angle_cos_sin(sp, rest)
         return cc, c * ss
     raise Unknown(str(e)[:80])
+
+
+
+# -------------------------------------------------------------------------------------------------
+# E7.ini-state-update: the INI reader's "what did I read last" state is set on every path that consumes a line
+# -------------------------------------------------------------------------------------------------
+
+def rule_ini_state(ck, W, rd, chain_nodes):
+    """PropertyMap::read keeps a local state variable (which kind of line was read last) that later branches test to refuse
+    misplaced lines ('{' only after a section marker, no entry after '}').  Every non-throwing path through a branch that
+    recognises a line kind must assign that variable before the next line is read (loop head) or the function returns."""
+    rule = "E7.ini-state-update"
+    e = W.ecfg(rd)
+    # the state variable: a local that is assigned enumerators inside at least two branches of the classification chain
+    cand = {}
+    for n, p in chain_nodes:
+        for x in walk(n.get("then")):
+            if x.get("k") == "Assign" and x.get("op") == "=" and strip(x["lhs"]).get("k") == "Ref" and strip(x["lhs"]).get("dk") == "local" \
+               and strip(x["rhs"]).get("k") == "Ref" and strip(x["rhs"]).get("dk") == "enum":
+                cand.setdefault(strip(x["lhs"])["n"], set()).add(id(n))
+    state = sorted(v for v, brs in cand.items() if len(brs) >= 2)
+    tested = [v for v in state if any(v in vars_of(rd.by_id(e.cfg.blocks[b]["cond"])) for b in e.el if e.cfg.blocks[b].get("cond") is not None and rd.by_id(e.cfg.blocks[b]["cond"]) is not None)]
+    if len(tested) != 1:
+        ck.incomplete(rule, "PropertyMap::read: state variable not identified (candidates %s)" % state)
+        return
+    S = tested[0]
+    # the loop that reads the lines: the innermost while/for that contains the chain
+    par = e.parents()
+    loop = par.get(id(chain_nodes[0][0]))
+    while loop is not None and loop.get("k") not in ("While", "For", "Do"):
+        loop = par.get(id(loop))
+    head = None
+    if loop is not None and strip(loop.get("c")) is not None:
+        cids = {x.get("i") for x in walk(loop["c"]) if x.get("i") is not None}
+        for b in e.el:
+            if e.cfg.blocks[b].get("cond") in cids and e.cfg.blocks[b].get("term") in ("WhileStmt", "ForStmt", "DoStmt", "BinaryOperator"):
+                head = b if head is None else head
+        # the first block that evaluates the loop condition: the one all back edges lead to
+        heads = {b for b in e.el if e.cfg.blocks[b].get("cond") in cids or any(i in cids for i in e.el[b])}
+    if loop is None or not heads:
+        ck.incomplete(rule, "PropertyMap::read: the line loop around the classification chain was not recognised")
+        return
+    assign_ids = {x["i"] for x in rd.nodes() if x.get("k") == "Assign" and x.get("op") == "=" and strip(x["lhs"]).get("k") == "Ref"
+                  and strip(x["lhs"])["n"] == S and x.get("i") is not None}
+    marked = {b for b in e.el if any(i in assign_ids for i in e.el[b])}
+    for n, p in chain_nodes:
+        key = "PropertyMap::read/%s" % ("%s:%s" % (p[0], "".join(str(x) for x in p[1:])))
+        ids = [x.get("i") for x in walk(n.get("then")) if x.get("i") is not None]
+        if not ids:
+            continue
+        idset = set(ids)
+        # entry block of the branch: the block holding its first statement / condition
+        entry = None
+        for i in sorted(idset):
+            for b in e.el:
+                if i in e.el[b] or e.cfg.blocks[b].get("cond") == i:
+                    entry = b
+                    break
+            if entry is not None:
+                break
+        if entry is None:
+            undecided(ck, rule, key, "branch body has no statement in the CFG")
+            continue
+        if entry in marked:
+            ck.ob(rule, key, True, "`%s` is assigned at the start of the branch" % S, rd.file, n.get("l"))
+            continue
+        reach = e.reachable(entry, avoid=marked)
+        leaks = [b for b in reach if b in heads or (e.exit in e.succ.get(b, []) and b not in e.throws)]
+        if leaks:
+            via = [render(x)[:40] for x in walk(n.get("then")) if (x.get("k") in ("Call", "MCall") and any(S in vars_of(a) for a in x.get("a", []))
+                                                                  and not MODELLED_CALLEES.match(x.get("callee") or ""))
+                   or (x.get("k") == "OpCall" and x.get("op") == "()" and x.get("a") and "lambda" in (rd.ntype(strip(x["a"][0])) or ""))]
+            if via:
+                undecided(ck, rule, key, "no assignment to `%s` on some path through the branch, but %s may update it" % (S, via))
+                continue
+            # a shortest path from the branch entry to the leak, for the report
+            prev, todo = {entry: None}, [entry]
+            while todo:
+                b = todo.pop(0)
+                for s_ in e.succ.get(b, []):
+                    if s_ is not None and s_ not in prev and s_ not in marked:
+                        prev[s_] = b
+                        todo.append(s_)
+            pth, b = [], leaks[0]
+            while b is not None:
+                pth.append(b)
+                b = prev.get(b)
+            lines = e.cfg.block_lines(pth[::-1])
+            ck.ob(rule, key, False,
+                  "a line of this kind can be consumed without updating `%s`: a path through the branch reaches the next line (lines %s) without any assignment to it, "
+                  "so the following line is judged against the state left by an earlier line (a misplaced '{' / entry is then accepted)" % (S, [l for l in lines if l][-4:]),
+                  rd.file, n.get("l"))
+        else:
+            ck.ob(rule, key, True, "every non-throwing path through the branch assigns `%s` before the next line is read" % S, rd.file, n.get("l"))
